@@ -193,6 +193,41 @@ var universe = []objDef{
     labels: {app: we}
 `,
 	}},
+	// a workload entry selected by the KUBERNETES service ksvc (cross-registry selection)
+	{ID: "we-k", Variants: []string{
+		meta("WorkloadEntry", netAPI, "we-k", "ns1") + `spec:
+  address: 10.41.0.9
+  labels: {app: k}
+  serviceAccount: sa-k1
+`,
+		meta("WorkloadEntry", netAPI, "we-k", "ns1") + `spec:
+  address: 10.41.0.9
+  labels: {app: k}
+  serviceAccount: sa-wek
+`,
+	}},
+	// DNS resolution with a workload selector
+	{ID: "se-d", Variants: []string{
+		meta("ServiceEntry", netAPI, "se-d", "ns1") + `spec:
+  hosts: [d.example.com]
+  ports:
+  - {number: 9003, name: tcp, protocol: TCP}
+  resolution: DNS
+  location: MESH_INTERNAL
+  workloadSelector:
+    labels: {app: we}
+`,
+		meta("ServiceEntry", netAPI, "se-d", "ns1") + `spec:
+  hosts: [d.example.com]
+  ports:
+  - {number: 9003, name: tcp, protocol: TCP}
+  - {number: 9004, name: http, protocol: HTTP}
+  resolution: DNS
+  location: MESH_INTERNAL
+  workloadSelector:
+    labels: {app: we}
+`,
+	}},
 	{ID: "we-1", Variants: []string{
 		meta("WorkloadEntry", netAPI, "we-1", "ns1") + `spec:
   address: 10.30.0.1
@@ -769,7 +804,7 @@ func (w world) configs() []config.Config {
 	sort.Strings(ids)
 	var out []config.Config
 	for _, id := range ids {
-		if isKube(id) || isGwapi(id) {
+		if isKube(id) || isGwapi(id) || isMesh(id) {
 			continue
 		}
 		out = append(out, render(id, w[id]))
